@@ -192,6 +192,14 @@ protected:
                               const Variables_Set& parameters) = 0;
 
   /*! \brief
+    Renumbers the artificial parameters mentioned in the subtree rooted
+    in \p *this, after \p n space dimensions have been added to a problem
+    that had \p old_space_dim space dimensions.
+  */
+  void shift_artificial_parameters(dimension_type old_space_dim,
+                                   dimension_type n);
+
+  /*! \brief
     Executes a parametric simplex on the tableau, under specified context.
 
     \return
